@@ -30,7 +30,8 @@ class Ob:
     extra: dict = field(default_factory=dict)
 
     def line(self) -> str:
-        return f"{self.where} {self.func}: {self.construct}  [{self.rule}] {self.verdict}: {self.how}"
+        one = " ".join(str(self.construct).split())          # a construct that spans lines is reported on one line
+        return f"{self.where} {self.func}: {one}  [{self.rule}] {self.verdict}: {self.how}"
 
 
 @dataclass
